@@ -1,5 +1,7 @@
 import KyupyVerif.Model.Sdf
 import KyupyVerif.Model.SdfText
+import KyupyVerif.Model.SdfCirc
+import KyupyVerif.Drv.Transform
 /-! Driver extension for C14: evaluates the SDF model on one request line.
 
 `sdf <mode> <which> <nlines> <cells> <pins> <ics>`
@@ -102,8 +104,46 @@ def handleText (args : List String) : String :=
       s!"{if f.ok then "ok" else "raise"} {showTree f} {raw}"
   | _ => "bad-args"
 
+/-! ### `sdfc <mode> <which> <cells> <tl> <names> <dump...>`: the annotation with the CONCRETE look-ups of Model/SdfCirc.lean
+over the circuit dump (`harness/circ.py: dump_net` / `dump_names`); tl = `~` | kind `:` pin `:` index (`;` ..)* (percent-encoded)
+= `tlib.pin_index` restricted to the kinds of the circuit.  Answer: `<array | raise> <look-ups>`; look-ups = one item per entry
+in loop order (`,`-separated, `~` when there is none, `-` when there is no top-level block): `r` raise, `s` warn-and-skip, or the
+line index — for the INTERCONNECT loop of EVERY entry, all-zero ones included (the look-up itself, before the skip test). -/
+def parseTl (s : String) : PinIdx :=
+  let rows := (splitList s ";").filterMap fun r => match r.splitOn ":" with
+    | [k, p, i] => some ((unpct k, unpct p), i.toNat!)
+    | _ => none
+  fun k p => (rows.find? (·.1 == (k, p))).map (·.2)
+
+def showLook : Look → String
+  | .raise => "r"
+  | .skip => "s"
+  | .line l => toString l
+
+def handleC (args : List String) : String :=
+  match args with
+  | mode :: which :: cells :: tl :: names :: dump =>
+    let m := if mode == "merge" then Mode.merge else Mode.lastWins
+    let B := parseCells cells
+    if !(B.all RawCell.ok) then "raise ~" else
+    let df := parse m B
+    let C : KV.Transform.NNet := { net := KV.Drv.Transform.parseNet (" ".intercalate dump), names := KV.Drv.Transform.parseNames names }
+    let T := parseTl tl
+    if which == "io" then
+      let looks := (namedEntries df).map fun p => showLook (ioLook C T p.1 p.2)
+      let arr := match iopathsC C T df with | some A => showArr A C.net.lines.size | none => "raise"
+      s!"{arr} {joinOr "," looks}"
+    else
+      let looks := match icEntries df with
+        | none => "-"
+        | some es => joinOr "," (es.map fun (e : Entry) => if slashOK e.a && slashOK e.b then showLook (icLookE C T e) else "r")
+      let arr := match interconnectsC C T df with | some A => showArr A C.net.lines.size | none => "raise"
+      s!"{arr} {looks}"
+  | _ => "bad-args"
+
 def handle (cmd : String) (args : List String) : Option String :=
   if cmd == "sdfparse" then some (handleText args) else
+  if cmd == "sdfc" then some (handleC args) else
   if cmd != "sdf" then none else
   match args with
   | [mode, which, nlines, cells, pins, ics] =>
@@ -113,10 +153,14 @@ def handle (cmd : String) (args : List String) : Option String :=
     let df := parse m B
     if which == "io" then some (showArr (iopaths (parsePins pins) df) nlines.toNat!)
     else
-      if df.interconnects.isNone then some "raise" else
-      let live := (icEntries df).filter fun e => !(icSkip (norm e.r) (norm e.f))
-      if !(live.all fun e => slashOK e.a && slashOK e.b) then some "raise" else
-      some (showArr (interconnects (parseIcs ics) df) nlines.toNat!)
+      match icEntries df with
+      | none => some "raise"
+      | some es =>
+        let live := es.filter fun e => !(icSkip (norm e.r) (norm e.f))
+        if !(live.all fun e => slashOK e.a && slashOK e.b) then some "raise" else
+        match interconnects (parseIcs ics) df with
+        | some A => some (showArr A nlines.toNat!)
+        | none => some "raise"
   | _ => some "bad-args"
 
 end KV.Drv.Sdf
